@@ -200,7 +200,9 @@ func c09Run(c c09Case, ce *c09Env, rec *vh.Recorder) error {
 		s.Add("sleep:1500") // the child's end is an event of the run while the main process is still there
 	}
 	var lim runner.Limit
-	if c.Children == "busy-child" {
+	if c.Children == "busy-child" && c.Runner == "ptrace" {
+		// (only the ptrace runner: when the pid-namespace init of the namespace runner exits, the kernel reaps its children
+		// for it and their CPU time becomes part of the usage the runner measures - Time Limit Exceeded is then right)
 		lim = runner.Limit{TimeLimit: 300 * time.Millisecond, MemoryLimit: 1 << 30}
 	}
 	var filter seccomp.Filter
